@@ -14,6 +14,9 @@ func registerEnvStubs() {
 	lock := func(x *Exec, f *Closure, a []Value, cc *ssa.CallCommon) Value {
 		c := a[0].(Ptr).C
 		if x.mutexHeld[c] != 0 {
+			if x.inGo > 0 {
+				panic(blockedOnLock{mu: c, steps: x.steps}) // a goroutine waits; it is run when the mutex is released
+			}
 			x.goPanic("DEADLOCK: Lock of a mutex already held on this path ("+c.Name+")", nil)
 		}
 		x.mutexHeld[c] = 1
@@ -27,6 +30,12 @@ func registerEnvStubs() {
 		}
 		x.mutexHeld[c] = 0
 		x.lockEvents = append(x.lockEvents, "unlock")
+		// goroutines parked on this mutex get it now, one after the other
+		for len(x.parked[c]) > 0 && x.mutexHeld[c] == 0 {
+			g := x.parked[c][0]
+			x.parked[c] = x.parked[c][1:]
+			x.runGoroutine(g)
+		}
 		return nil
 	}
 	tryLock := func(x *Exec, f *Closure, a []Value, cc *ssa.CallCommon) Value {
